@@ -70,12 +70,31 @@ for _fn, _real in _int_shims:
     # requires=[]: the documentation states no precondition, so the domain is all values of the type
     P.contract(_fn, _real, kind='U', requires=[], ensures=[], build=_bi, unwind=6, backends=('sat',), timeout=300)
 
+# ---------------------------------------------------------------------------------------------------------------------------
+# SIMD paths: "no out-of-bounds, misaligned or null access" for the conversions between packed and aligned types, the only SIMD code that takes
+# addresses (loadu/storeu through reinterpret_cast, type_vec4.inl).  A packed vec4 is only 4-byte aligned: the shims place it at every float
+# offset 0..3 of a 16-byte aligned buffer (symbolic offset), so an aligned load/store through its address trips the UBSan alignment check that
+# clang inserts for *(__m128*)p.  (The vec3 conversions next to them go through _mm_store_sd / _mm_load_sd on double* and are NOT claimed:
+# see not_covered.)
+_ds = P.driver('c20_simd', ['<glm/glm.hpp>', '<glm/gtc/type_aligned.hpp>'])
+_PA = 'typedef glm::vec<4, float, glm::packed_highp> PV; typedef glm::vec<4, float, glm::aligned_highp> AV; alignas(16) float buf[8] = {0, 0, 0, 0, 0, 0, 0, 0}; '
+_ds.shim('glm_simd_aligned_vec4_from_packed_at_offset', 'void', [('float', c) for c in 'xyzw'] + [('uint8_t', 'off')],
+         _PA + 'float* q = buf + (off & 3); q[0] = x; q[1] = y; q[2] = z; q[3] = w; AV a(*reinterpret_cast<PV const*>(q)); '
+         'out[0] = a.x; out[1] = a.y; out[2] = a.z; out[3] = a.w;', outs=[('float', 'out', 4)])
+_ds.shim('glm_simd_packed_vec4_from_aligned_at_offset', 'void', [('float', c) for c in 'xyzw'] + [('uint8_t', 'off')],
+         _PA + 'AV a(x, y, z, w); PV* q = new (buf + (off & 3)) PV(a); out[0] = q->x; out[1] = q->y; out[2] = q->z; out[3] = q->w;', outs=[('float', 'out', 4)])
+for _isa, _fl in (('sse2', ['-msse2']), ('avx2', ['-mavx2', '-mfma'])):
+    _bs = P.build(_ds, 'ubsan', defines=['GLM_FORCE_INTRINSICS'], flags=_fl, tag='c20_simd_%s_ubsan' % _isa)
+    for _fn, _real in (('glm_simd_aligned_vec4_from_packed_at_offset', 'vec<4, float, aligned_highp>::vec(vec<4, float, packed_highp> const&)  glm/detail/type_vec4.inl (_mm_loadu_ps)'),
+                       ('glm_simd_packed_vec4_from_aligned_at_offset', 'vec<4, float, packed_highp>::vec(vec<4, float, aligned_highp> const&)  glm/detail/type_vec4.inl (_mm_storeu_ps)')):
+        P.contract(_fn, '[GLM_FORCE_INTRINSICS, %s] %s' % (_isa, _real), kind='U', requires=[], ensures=[], build=_bs, unwind=6, backends=('sat',), timeout=300)
+
 P.level_text = ('for every shim of the value properties, under the documented-domain precondition, every UBSan check that clang itself '
                 'inserts (signed overflow, shift, division by zero, float-to-int range, bounds, alignment, null, bool/enum load, '
                 'unreachable) and every GLM assert is proved unreachable by CBMC on the extracted code, for all argument values')
 P.level_note = ('oracle = clang-14 -fsanitize=undefined,float-cast-overflow in trap mode at -O1 (C++17 rules); blind to UB classes UBSan '
                 'does not instrument (strict aliasing, unsequenced modification); memory safety of the translated byte-addressed '
-                'accesses via CBMC --pointer-check --bounds-check; SIMD paths only via C03')
+                'accesses via CBMC --pointer-check --bounds-check; SIMD paths: the packed/aligned vec4 conversions here, values via C03')
 P.technique = 'CBMC reachability of compiler-inserted UBSan trap sites under contract preconditions (DFCC enforce)'
 P.design_ref = 'DESIGN.md section 6 C20'
 P.assumptions = ['documented domain = the REQUIRES clauses of the value contracts (taken from doc comments / GLSL text); where the documentation is silent the domain is all values of the type']
